@@ -587,8 +587,13 @@ def record_moments(sc):
         m = sc["n"] // B
         for name, f, exact in stats:
             v = np.asarray(f(chain), dtype=float)[:B * m].reshape(B, m).mean(axis=1)
-            tr["stats"].append(dict(name=name, est=int(round(float(v.mean()) * 1e6)), exact=int(round(exact * 1e6)),
-                                    se=int(round(float(v.std(ddof=1) / np.sqrt(B)) * 1e6))))
+            def clamp(x, lim):          # TLC integers are 32 bit: a diverged chain is as wrong at 1000 as at 1e9
+                x = float(x)
+                if not np.isfinite(x):
+                    return lim
+                return int(round(max(-lim, min(lim, x * 1e6))))
+            tr["stats"].append(dict(name=name, est=clamp(v.mean(), 10 ** 9), exact=int(round(exact * 1e6)),
+                                    se=clamp(v.std(ddof=1) / np.sqrt(B), 10 ** 8)))
     except Hang:
         tr["res"] = "hang"
     except BaseException as ex:
